@@ -13,6 +13,7 @@ pub fn gen(lab: &str, rng: &mut Rng, n: usize) -> Vec<String> {
         "alloc" => alloc::gen(rng, n),
         "fmt" => fmt::gen(rng, n),
         "reg" => reg::gen(rng, n),
+        "ovw" => reg::gen_ovw(rng, n),
         "sort" => sort::gen(rng, n),
         _ => panic!("unknown lab {lab}"),
     }
@@ -27,6 +28,7 @@ pub fn exec(verb: &str, req: &str) -> String {
         "fd" | "f64" | "bytes" | "thr" => fmt::exec(verb, &toks),
         "natcmp" | "natcmp3" | "argcmp" | "argsort" => sort::exec(verb, &toks),
         "reg" => reg::exec(verb, &toks),
+        "ovw" => reg::exec_ovw(&toks),
         _ => format!("bad-verb"),
     }
 }
